@@ -7,8 +7,9 @@ import ast, hashlib, os, re
 
 
 class ClassDecl:
-    def __init__(self, name, fields=None, bases=(), content=None, doc=""):
+    def __init__(self, name, fields=None, bases=(), content=None, doc="", consts=None):
         self.name, self.fields, self.bases, self.content, self.doc = name, dict(fields or {}), tuple(bases), content, doc
+        self.consts = dict(consts or {})         # class-level constants read as self.NAME
         # content: type string of the object's own container content when the class subclasses deque/list/dict
         # (e.g. CallStack(deque): content="deque[node]")
 
@@ -32,7 +33,7 @@ def _clauses(lst, kind):
 class Contract:
     def __init__(self, target, params, returns=None, requires=(), ensures=(), raises=None, modifies=(),
                  loops=None, pure=False, decreases=None, static_self=None, trusted=False, note="",
-                 ghost_entry=(), alloc=(), locals=None, ambient_exc=False, nullable=(), never_returns=False, defaults=None, static=None):
+                 ghost_entry=(), alloc=(), locals=None, ambient_exc=False, nullable=(), never_returns=False, defaults=None, static=None, supers=None):
         self.target = target                      # "modelx/core/system.py::CallStack.pop" or "extern::name"
         self.file, _, self.qual = target.partition("::")
         self.params = dict(params)                # ordered: name -> type string
@@ -51,7 +52,7 @@ class Contract:
         self.trusted = trusted                    # external / assumed contract: used at call sites, never proved
         self.note = note
         self.alloc = alloc
-        self.ambient_exc = ambient_exc; self.nullable = tuple(nullable); self.never_returns = never_returns; self.defaults = dict(defaults or {}); self.static = dict(static or {})
+        self.ambient_exc = ambient_exc; self.nullable = tuple(nullable); self.never_returns = never_returns; self.defaults = dict(defaults or {}); self.static = dict(static or {}); self.supers = dict(supers or {})
         self.locals = dict(locals or {})          # declared types for locals the engine cannot infer
 
     @property
@@ -83,8 +84,18 @@ class Registry:
         self.lemmas = []             # (name, fn(L) -> list[(label, hyps, goal)])
         self.assumptions = []
 
-    def cls(self, name, fields=None, bases=(), content=None, doc=""):
-        self.classes[name] = ClassDecl(name, fields, bases, content, doc); return self.classes[name]
+    def cls(self, name, fields=None, bases=(), content=None, doc="", consts=None):
+        self.classes[name] = ClassDecl(name, fields, bases, content, doc, consts); return self.classes[name]
+
+    def class_const(self, cls, name):
+        seen = set(); todo = [cls]
+        while todo:
+            c = todo.pop(0)
+            if c in seen or c not in self.classes: continue
+            seen.add(c)
+            if name in self.classes[c].consts: return self.classes[c].consts[name]
+            todo.extend(self.classes[c].bases)
+        return None
 
     def contract(self, target, variant=None, **kw):
         """variant: register a second contract of the same function for another static argument value; it is
